@@ -474,7 +474,7 @@ func genFmt(w *out.W, tier string) {
 	// the CLI on a spread of the cases (DirURL's ?format= switch)
 	cliEvery := 23
 	if tier != "quick" {
-		cliEvery = 5
+		cliEvery = 13
 	}
 	for i, c := range cases {
 		c.cli = i%cliEvery == 0
